@@ -3,13 +3,13 @@
     operation dropped, handed to the caller or leaked, is a permutation of what it owned
     before together with what was supplied.  With distinct identities this says: nothing
     is dropped twice, nothing dropped stays reachable, nothing is lost.
-    Proved here for the row routines and the steps that do not go through the raw column
-    routines; for insert_col / remove_col the same equation is checked on every run by the
-    extracted ledger oracle (Tracked elements, zero-sized elements by counting), see C05
-    in DESIGN.md. *)
+    Proved for every fault-free operation of the history machine and for histories of any
+    length; the same equation is also evaluated on every run by the extracted ledger oracle
+    on the implementation's own drop ledger (Tracked elements; zero-sized elements by
+    counting). *)
 From Coq Require Import Permutation.
 From TD Require Import Base.Prelude Spec.Grid Spec.Inv Model.Owned Model.Hist
-  Proofs.InsertRow Proofs.RemoveRow Proofs.Ledger.
+  Spec.HistSpec Proofs.InsertRow Proofs.RemoveRow Proofs.Ledger Proofs.LedgerAll.
 
 Theorem C05_insert_row_accepted :
   forall (A : Type) dbg cap spare (t : toodee A) idx xs,
@@ -46,6 +46,35 @@ Theorem C05_simple_steps :
                  Inv (h_td h) -> step_ledger cf h (HSetCell c r v) [v]).
 Proof. exact simple_steps_ledger. Qed.
 Print Assumptions C05_simple_steps.
+
+(** every fault-free step - constructors, insert / push / remove / pop of rows and columns
+    with honest iterators and with drains consumed to any extent (next, next_back, nth,
+    nth_back, len) and then dropped, clear, swap_dimensions, indexed writes, fill, clone,
+    conversions, valid or rejected arguments, also when an element destructor panics during
+    the step ([HBomb]): owned-after + dropped is a permutation of owned-before + supplied,
+    and nothing is leaked *)
+Theorem C05_every_step :
+  forall cf o h h' ob,
+  Inv (h_td h) -> (N.of_nat (length (data (h_td h))) < W)%N -> fault_free_op o = true ->
+  hstep cf h o = Ok (h', ob) ->
+  Permutation (data (h_td h') ++ ob_dropped ob) (data (h_td h) ++ supplied cf h o) /\ ob_leaked ob = [].
+Proof. exact hstep_ledger. Qed.
+Print Assumptions C05_every_step.
+
+(** ... hence for every fault-free history, of any length: what is still owned at the end
+    plus everything dropped along the way is a permutation of everything ever supplied;
+    with distinct identities: each element is dropped exactly once or still owned, never
+    both, never twice *)
+Theorem C05_every_history :
+  forall cf ops h l,
+  Inv (h_td h) -> (N.of_nat (length (data (h_td h))) < W)%N ->
+  forallb fault_free_op ops = true ->
+  hrun cf h ops = Ok l ->
+  Forall (fun p => (N.of_nat (length (data (h_td (fst p)))) < W)%N) l ->
+  Permutation (data (h_td (final_state h l)) ++ dropped_all l) (data (h_td h) ++ supplied_all cf h ops l)
+  /\ total_leaked l = 0.
+Proof. exact hrun_ledger. Qed.
+Print Assumptions C05_every_history.
 
 Example C05_example :
   remove_row (mkTD [1; 2; 3; 4; 5; 6]%N 3 2) 1 [DFront] DropIt
